@@ -143,6 +143,40 @@ func c16Contexts(isString bool, sameLit func() *model.N) []holeCtx {
 		op := op
 		add("un"+op, func(hh *model.N) []*model.N { return pr(model.Un(op, hh)) })
 	}
+	// the hole between two operators of an unparenthesised chain: 2 op1 □ op2 5, for every pair of operators
+	chainOps := []string{model.KwOr, "&&", "|", "^", "&", "==", "!=", "<", "<=", ">", ">=", "<<", ">>", "+", "-", "*", "/", "%", "**"}
+	mkOp := func(op string, l, r *model.N) *model.N {
+		if model.BinLevel[op] == 0 {
+			return model.Log(op, l, r)
+		}
+		return model.Bin(op, l, r)
+	}
+	for _, o1 := range chainOps {
+		for _, o2 := range chainOps {
+			o1, o2 := o1, o2
+			add("chain|"+o1+"|"+o2, func(hh *model.N) []*model.N {
+				text := model.KwPrint + " 2 " + o1 + " HOLE " + o2 + " 5;"
+				st, err := model.ParseSource(strings.Replace(text, "HOLE", "hOlE", 1))
+				if err != nil || len(st) != 1 {
+					return pr(mkOp(o2, mkOp(o1, num(2), hh), num(5)))
+				}
+				var sub func(n *model.N) *model.N
+				sub = func(n *model.N) *model.N {
+					if n == nil {
+						return nil
+					}
+					if n.K == "id" && n.S == "hOlE" {
+						return hh
+					}
+					for i, k := range n.A {
+						n.A[i] = sub(k)
+					}
+					return n
+				}
+				return []*model.N{sub(st[0])}
+			})
+		}
+	}
 	add("if", func(hh *model.N) []*model.N { return []*model.N{model.If(hh, T("then"), T("else"))} })
 	add("while", func(hh *model.N) []*model.N {
 		return []*model.N{model.While(hh, model.Block(T("body"), model.Break())), T("after")}
@@ -378,6 +412,8 @@ func ctxClass(n string) string {
 	switch {
 	case strings.HasPrefix(n, "builtin-"), n == "input-prompt", n == "append-element", n == "remove-index", n == "delete-key":
 		return "builtin-argument"
+	case strings.HasPrefix(n, "chain|"):
+		return "operator-chain"
 	case strings.HasPrefix(n, "print"):
 		return "print"
 	case strings.HasPrefix(n, "concat"):
